@@ -498,8 +498,12 @@ func startWithListenerFds(cdyfile Input, inst *Instance, restartFds map[string]r
 	instances = append(instances, inst)
 	instancesMu.Unlock()
 	var err error
+	// a failed start must leave the registered event hooks as they were
+	// (the "on" directive registers its hooks while it is being set up)
+	hooksBefore := cloneEventHooks()
 	defer func() {
 		if err != nil {
+			restoreEventHooks(hooksBefore)
 			instancesMu.Lock()
 			for i, otherInst := range instances {
 				if otherInst == inst {
@@ -582,10 +586,18 @@ func startWithListenerFds(cdyfile Input, inst *Instance, restartFds map[string]r
 // the resulting server blocks into inst. If justValidate is true, parse
 // callbacks will not be executed between directives, since the purpose
 // is only to check the input for valid syntax.
-func ValidateAndExecuteDirectives(cdyfile Input, inst *Instance, justValidate bool) error {
+func ValidateAndExecuteDirectives(cdyfile Input, inst *Instance, justValidate bool) (retErr error) {
 	// If parsing only inst will be nil, create an instance for this function call only.
 	if justValidate {
 		inst = &Instance{serverType: cdyfile.ServerType(), wg: new(sync.WaitGroup), Storage: make(map[interface{}]interface{})}
+
+		// a failed validation must leave the registered event hooks as they were
+		hooksBefore := cloneEventHooks()
+		defer func() {
+			if retErr != nil {
+				restoreEventHooks(hooksBefore)
+			}
+		}()
 	}
 
 	stypeName := cdyfile.ServerType()
